@@ -72,7 +72,8 @@ class ContentsFile(contentsSet):
                     gid=os_data.root_gid,
                     perms=0o644,
                 )
-            return readlines_utf8(self._source, True)
+            # whitespace is significant: a path may end in it
+            return readlines_utf8(self._source, False)
         fobj = self._source.text_fileobj(writable=write)
         if write:
             fobj.seek(0, 0)
@@ -85,6 +86,7 @@ class ContentsFile(contentsSet):
     def _iter_contents(self):
         self.clear()
         for line in self._get_fd():
+            line = line.rstrip("\n")
             if not line:
                 continue
             s = line.split(" ")
